@@ -416,6 +416,7 @@ fn login_lines(who: Who) -> Vec<String> {
         Who::Anon => vec![],
         Who::Token => vec!["use-db db tok".into()],
         Who::Admin => vec!["auth admin pwd".into(), "use-db db tok".into()],
+        Who::AdminNoDb => vec!["auth admin pwd".into()],
     }
 }
 
